@@ -53,6 +53,7 @@ pub fn gen_seed(u: &mut U) -> Vec<u8> {
         0..=1 => 16,
         2..=3 => 32,
         4..=6 => 64,
+        7 => [0usize, 1, 15, 17, 31, 33, 63, 65, 127, 128, 129, 255, 256, 257, 512, 1024][u.below(16)],
         _ => u.range(1, 128),
     };
     match u.below(6) {
